@@ -243,3 +243,120 @@ def bounded(seed: int = 0, **_: Any) -> Dict[str, Any]:
                 elif len(samples) < 3:
                     samples.append({"rule": rule, "mutant": name, "error": detail[:200]})
     return {"cases": cases, "distinct": len(rules), "failures": failures[:6], "exhaustive": False, "samples": samples}
+
+
+# ---------------------------------------------------------------------------------------------------------------
+# C04 (examples): the location reported for a single-rule mutant lies in the top-level statement that was mutated
+
+def _top_level_span(text: str, offset: int) -> Tuple[int, int]:
+    """First and last line (1-based) of the top-level statement containing the character offset."""
+    import ast
+    line = text.count("\n", 0, offset) + 1
+    try:
+        tree = ast.parse(text)
+    except SyntaxError:
+        return line, line
+    for st in tree.body:
+        first = min([st.lineno] + [d.lineno for d in getattr(st, "decorator_list", [])])
+        last = getattr(st, "end_lineno", st.lineno)
+        if first <= line <= last:
+            return first, last
+    return line, line
+
+
+def locations(seed: int = 0, **_: Any) -> Dict[str, Any]:
+    import re
+    failures: List[Dict[str, Any]] = []
+    samples: List[Dict[str, Any]] = []
+    cases = 0
+    with tempfile.TemporaryDirectory() as d:
+        for base, mutants in ((BASE, MUTANTS), (BASE_MI, MUTANTS_MI)):
+            for rule, name, old, new in mutants:
+                if base.count(old) != 1:
+                    continue
+                text = base.replace(old, new)
+                verdict, detail = _load(text, d)
+                if verdict != "rejected":
+                    continue
+                p = pathlib.Path(d) / "meta_model.py"
+                p.write_text(text, encoding="utf-8")
+                _, report = run.load_model(p)
+                assert report is not None
+                lines = [int(m.group(1)) for m in re.finditer(r"At line (\d+) and column (\d+)", report)]
+                lines += [int(m.group(1)) for m in re.finditer(r"invalid syntax at line (\d+)", report)]
+                first, last = _top_level_span(text, base.index(old))
+                cases += 1
+                # the wrappers of the report point at line 1; the innermost entries carry the location
+                inner = [ln for ln in lines if ln != 1] or lines
+                if not inner:
+                    failures.append({"property": "C04", "mutant": name, "observed": "the report carries no location",
+                                     "report": report[:400]})
+                elif not any(first <= ln <= last for ln in inner) and name not in ELSEWHERE:
+                    failures.append({"property": "C04", "mutant": name, "mutated_statement_lines": [first, last],
+                                     "observed": f"the reported lines {sorted(set(inner))} are all outside the mutated "
+                                                 f"top-level statement (lines {first}-{last})", "report": report[:600]})
+                elif len(samples) < 3:
+                    samples.append({"mutant": name, "lines": sorted(set(inner)), "statement": [first, last]})
+    return {"cases": cases, "distinct": cases, "failures": failures[:6], "exhaustive": False, "samples": samples}
+
+
+# mutants whose error is, by its nature, reported at another construct than the mutated one
+ELSEWHERE: Dict[str, str] = {
+    "cycle of two": "a cycle has no single offending class: the report names a class of the cycle (the other one)",
+    "cycle through two parents": "same",
+}
+
+
+# ---------------------------------------------------------------------------------------------------------------
+# C03 (examples): independent errors found in one phase are all reported, none is silently dropped
+
+MULTI: List[Tuple[str, List[Tuple[str, str]], List[str]]] = [
+    ("three unsupported elements in one docstring",
+     [('"""Represent an item, see also :class:`Named` and :attr:`Color.Red`."""',
+       '"""\n    Represent an item.\n\n        A block quote.\n\n    Some **strong** text.\n\n    1. first\n    2. second\n    """')],
+     ["docutils.nodes.block_quote", "docutils.nodes.strong", "docutils.nodes.enumerated_list"]),
+    ("two unknown types", [("    ident: Id_string\n", "    ident: Unknown_one\n"),
+                           ("    color: Optional[Color]\n", "    color: Optional[Unknown_two]\n")],
+     ["Unknown_one", "Unknown_two"]),
+    ("two dangling parents", [("class Item(Named):", "class Item(Missing_one):"),
+                              ("class Named(DBC):", "class Named(Missing_two, DBC):")],
+     ["Missing_one", "Missing_two"]),
+    ("two reserved names", [("class Color(Enum):", "class Class(Enum):"),
+                            ("Default_name: str = constant_str", "While: str = constant_str")],
+     ["'Class'", "'While'"]),
+]
+
+
+def multi_errors(seed: int = 0, **_: Any) -> Dict[str, Any]:
+    failures: List[Dict[str, Any]] = []
+    cases = 0
+    with tempfile.TemporaryDirectory() as d:
+        for name, reps, phrases in MULTI:
+            text = BASE
+            for old, new in reps:
+                if text.count(old) != 1:
+                    failures.append({"property": "C03", "case": name, "observed": "checker error: replaced text not unique"})
+                    break
+                text = text.replace(old, new)
+            cases += 1
+            p = pathlib.Path(d) / "meta_model.py"
+            p.write_text(text, encoding="utf-8")
+            try:
+                _, report = run.load_model(p)
+            except BaseException as e:  # noqa
+                failures.append({"property": "C01", "case": name, "observed": f"the front end raised {type(e).__name__}"})
+                continue
+            if report is None:
+                failures.append({"property": "C06", "case": name, "observed": "accepted"})
+                continue
+            missing = [ph for ph in phrases if ph not in report]
+            if missing:
+                failures.append({"property": "C03", "case": name, "observed": f"the report does not mention {missing}: an "
+                                 f"independent error was dropped", "report": report[:900]})
+            head = report.split("\n")[0]
+            if not head.endswith(":") or "\n* " not in report:
+                failures.append({"property": "C03", "case": name,
+                                 "observed": "the report is not a headline ending in ':' followed by '* ' entries",
+                                 "report": report[:300]})
+    return {"cases": cases, "distinct": cases, "failures": failures[:6], "exhaustive": False,
+            "samples": [{"cases": [m[0] for m in MULTI]}]}
